@@ -20,7 +20,8 @@ MANIFEST = {
             'through the node\'s own loader and a continuation. Exhaustive in crash points per save, sampled over scripts.'
             ' The receive script (skepticoin-receive main()) is run as a process of its own against the simulated file system with a crash at every boundary of its save, followed by the next caller: an address shown before must not be shown again. Wallet keys also spend (several outputs of one key in one transaction, change back to an input key, one key paid twice) before balances are compared.'
             " The mining script's MinerWatcher.__call__ runs for real (start-up, message loop, shutdown) with Ctrl-C at a seeded call of the found-block handler or a disk that fills up, then the next process loads the wallet; the very first start in an empty directory is crash-swept; after every crash the next process's first complete save is checked too."
-            ' A start on which reading the existing wallet fails once (EIO, EACCES, EMFILE, EINTR, ESTALE) must leave wallet.json as it was, and the next start loads it.',
+            ' A start on which reading the existing wallet fails once (EIO, EACCES, EMFILE, EINTR, ESTALE) must leave wallet.json as it was, and the next start loads it.'
+            ' The send script runs as a process too (real main(), stand-ins for chain, networking thread and sleep) with a fault after the transaction has left it: the key that receives its change is never among the unused keys of wallet.json afterwards.',
     'note': 'Process-crash model only (what the statement says): completed write(2)s, truncations and renames survive, '
             'Python-level buffers do not; no power-loss reordering. Trusted: SimFS (seams/fs.py), own JSON parsing of the file.',
 }
